@@ -45,11 +45,15 @@ Lex(s) == LexFold(s).toks
 
 IsNum(t) == Ch(t, 1) \in Digits
 IsSym(t) == t \in SymSet
-BigNum == 100000000     \* numbers saturate here (TLC integers are 32 bit); no atom index gets near
-RECURSIVE NumVal(_)
-NumVal(t) == IF Len(t) = 0 THEN 0
-             ELSE LET v == 10 * NumVal(SubSeq(t, 1, Len(t)-1)) + DigitVal[Ch(t, Len(t))]
-                  IN IF v > BigNum THEN BigNum ELSE v
+BigNum == 100000000     \* numerals below 10^8 denote their value; TLC integers are 32 bit, so a larger numeral n travels as
+                        \* 10^8 + (n mod 10^9), i.e. 10^8 + its last nine digits (harness/project.py: fingerprint does the same to
+                        \* the implementation's integers): large numbers that differ in their low digits stay different
+RECURSIVE StripZeros(_)
+StripZeros(t) == IF Len(t) > 1 /\ Ch(t, 1) = "0" THEN StripZeros(SubSeq(t, 2, Len(t))) ELSE t
+RECURSIVE PlainVal(_)
+PlainVal(t) == IF Len(t) = 0 THEN 0 ELSE 10 * PlainVal(SubSeq(t, 1, Len(t)-1)) + DigitVal[Ch(t, Len(t))]
+NumVal(t) == LET u == StripZeros(t) IN
+             IF Len(u) <= 8 THEN PlainVal(u) ELSE BigNum + PlainVal(SubSeq(u, Len(u) - 8, Len(u)))
 
 \* ---------- recognizer ----------
 SlashPos(T) == {i \in 1..Len(T) : T[i] = "/"}
